@@ -1169,10 +1169,11 @@ void var_opt_sketch<T, A>::grow_candidate_set(double wt_cands, uint32_t num_cand
     const double next_wt = peek_min();
     const double next_tot_wt = wt_cands + next_wt;
 
-    // test for strict lightness of next prospect (denominator multiplied through)
-    // ideally: (next_wt * (next_num_cands-1) < next_tot_wt)
-    //          but can use num_cands directly
-    if ((next_wt * num_cands) < next_tot_wt) {
+    // test for strict lightness of next prospect against the tau of the current candidate set.
+    // This must be the same quotient that get_tau() reports after downsampling (total_wt_r_ / r_):
+    // update() validates peek_min() >= get_tau(), and the algebraically equivalent product form
+    // (next_wt * num_cands < next_tot_wt) can disagree with it by one ulp for an item equal to tau.
+    if (next_wt < wt_cands / (num_cands - 1)) {
       wt_cands = next_tot_wt;
       ++num_cands;
       pop_min_to_m_region(); // adjusts h_ and m_
